@@ -26,7 +26,12 @@ pub fn def() -> PropDef {
 /// by another comment
 pub fn has_multiline_comment_followed_by_comment(source: &str) -> bool {
     let Ok(l) = lex(source, Mode::Luau) else { return false };
-    l.comments.windows(2).any(|w| w[0].end_line > w[0].line && source[w[0].end..w[1].start].chars().all(|c| c.is_whitespace()))
+    // the comments of a removed statement are re-attached together: the next comment may be separated
+    // from the multi-line one by the statement that goes away (`]==] local b ---`)
+    l.comments.windows(2).any(|w| {
+        let between = &source[w[0].end..w[1].start];
+        w[0].end_line > w[0].line && (between.chars().all(|c| c.is_whitespace()) || between.matches('\n').count() <= 1)
+    })
 }
 
 /// known finding "local-multiline-name-list": a `local` / `const` declaration whose list of
